@@ -154,9 +154,9 @@ def work(item):
             viol.append((f"C13|{engine}|{cls_}|{pk}", f"[{lang} {engine} {pn}] {label}: {cls_}: {detail} in {short(norm_ids(marked), 200)!r}", replay))
         if any(TAG.fullmatch(m.group(0)) and TAG.fullmatch(m.group(0)).group(2) in (VOCAB["SSML"] | VOCAB["SAPI5"])
                for m in re.finditer(r"<(?=/?[A-Za-z])[^<>]*>", plain_ref)):
-            viol.append((f"C13|none|markup-without-engine", f"[{lang} none {pn}] {label}: markup although no engine is selected: {short(plain_ref, 160)!r}", replay))
+            viol.append((f"C13|none|markup-without-engine", f"[{lang} none {pn}] {label}: markup although no engine is selected: {short(norm_ids(plain_ref), 160)!r}", replay))
         if not problems and words(plain) != words(plain_ref):
-            viol.append((f"C13|{engine}|words-differ|{pk}|{canon_run.label_class(label)}", f"[{lang} {engine} {pn}] {label}: words {norm_ids(plain.strip())!r} differ from the engine-free words {plain_ref.strip()!r}", replay))
+            viol.append((f"C13|{engine}|words-differ|{pk}|{canon_run.label_class(label)}", f"[{lang} {engine} {pn}] {label}: words {norm_ids(plain.strip())!r} differ from the engine-free words {norm_ids(plain_ref.strip())!r}", replay))
         if marks:
             ids = set(re.findall(r"\sid='([^']*)'", val(r[0])))
             for m in marks:
@@ -198,6 +198,21 @@ def main(tier):
             for prefs in sets:
                 for i in range(0, len(corp), 400):
                     jobs.append((lang, engine, prefs, corp[i:i + 400]))
+    # boundary ladder for the numeric preferences (tag generation computes relative/rounded values from them): one preference at a time
+    # away from its default, both engines, on the expressions that exercise pitch/rate/pause/volume changes
+    LADDER = ["-100", "-50", "-10", "-2", "-1", "0", "1", "2", "5", "10", "50", "99", "100", "101", "150", "400", "1000"]
+    small = [c for c in corp if c[0].startswith("caps:")] + corp[:6]
+    nl = 0
+    for k in ("Rate", "Pitch", "Volume", "PauseFactor", "MathRate", "CapitalLetters_Pitch"):
+        for v in LADDER:
+            for extra in ({}, {"CapitalLetters_Pitch": "30"} if k != "CapitalLetters_Pitch" else {"Pitch": "20"}):
+                d = dict(DEFAULTS)
+                d.update(extra)
+                d[k] = v
+                for engine in ("SSML", "SAPI5"):
+                    jobs.append(("en", engine, d, small))
+                    nl += 1
+    run.count("numeric_ladder_jobs", nl)
     outs = []
     for _ in range(2):
         mcx._worker_mc = mcx.Mc()
@@ -216,7 +231,8 @@ def main(tier):
     return run.finish(
         rule=f"terms: spine terms of G to depth {'1' if tier == 'quick' else '2'}, the trigger terms and 6 capital/chemistry/long-row terms; languages "
              f"{langs}; engines SSML and SAPI5 (each compared with engine none in the same session); preference sets: defaults, each of "
-             "Rate{90,300} Pitch{20} Volume{50} PauseFactor{0,300} MathRate{150} CapitalLetters_Pitch{30} CapitalLetters_Beep CapitalLetters_UseWord{false} Bookmark "
+             "Rate{90,300} Pitch{20} Volume{50} PauseFactor{0,300} MathRate{150} CapitalLetters_Pitch{30} CapitalLetters_Beep CapitalLetters_UseWord{false} Bookmark; "
+             "plus a 17-step boundary ladder (-100 .. 1000) for each of the six numeric preferences alone and combined with one other pitch setting, both engines, on the capital-letter expressions; "
              "alone, all together" + (", and every pair" if tier == "thorough" else "") + ". distinct_nontrivial = distinct (language, engine, preference set, marked-up speech) results",
         assumptions=["word comparison ignores white space and the pause punctuation , ; and reads 'eigh' as the letter a (rule files spell the letter only when an engine can)",
                      "tag vocabularies are those of SSML 1.1 and SAPI5 XML TTS"],
